@@ -1,4 +1,5 @@
 """C01 - every test run is bracketed and yields exactly one outcome."""
+import copy
 import itertools
 
 from hypothesis import strategies as st
@@ -18,25 +19,124 @@ RULE = ("Generated test programs (setUp before/after the upcall, test method, te
         "oracle: the event log is exactly startTest, one outcome, stopTest; a non-Exception error is reported as an "
         "error, all later stages still run (execution log equals the reference interpreter's) and the very exception "
         "object propagates out of run() after stopTest. Thorough adds the exhaustive grid of 10 behaviours x 5 "
-        "stages. Non-trivial: >= 2 stages raise, or a non-Exception is raised, or flavour != extended; distinct = "
+        "stages. Laid over the programs, and enumerated by variant_grid: the case is a clone_test_with_new_id copy; "
+        "errors that are dataclass exceptions (unhashable, value-equal), equal-to-all exceptions, ExceptionGroups, "
+        "a BaseExceptionGroup holding an interrupt; exception objects already reported by another test's run; a falsy "
+        "result object; an @expectedFailure method raising MultipleExceptions of Exceptions. Stages that ran are "
+        "compared as a multiset (their order is C02's); a skip-decorated test may either run nothing or run setUp / "
+        "tearDown / cleanups around a skipping method; user code must lie between startTest and stopTest. Non-trivial: >= 2 stages raise, or a non-Exception is raised, or flavour != extended; distinct = "
         "distinct canonical (program, flavour).")
 ASSUMPTIONS = [
     "user handlers are only generated for Exception subclasses",
     "when two non-Exception errors are raised either may propagate",
     "addOnException handlers that raise are outside the domain (documented to abort the run)",
+    "the reference interpreter runs cleanups last-in-first-out; the stages-still-run clause compares multisets, so another "
+    "order only matters where a cleanup re-registers a callable / re-raises a MultipleExceptions first seen in another cleanup",
+    "a skip decorator either short-circuits the whole test or leaves setUp / tearDown / cleanups running around a method "
+    "that raises the skip; a decorated test that runs its own body is reported (decorator-skip:ran-code) although the "
+    "statement itself only asks for one outcome",
+    "with result=None a startTestRun/stopTestRun pair around the default result is optional; if either is sent both must be, "
+    "first and last",
+    "an @expectedFailure method raising MultipleExceptions that holds a KeyboardInterrupt / SystemExit is excluded: the "
+    "decorator's wrapper turns the container into an expected failure on the current tree (third audit, B2)",
+    "a clone of an @expectedFailure test is excluded (its body runs on the instance it was copied from; C02 / C05 matter)",
+    "the 'locals' flavour relies on CPython >= 3.11 swallowing a failing repr() while rendering frame locals (3.12 is pinned)",
+    "testtools.testcase._ExpectedFailure / _UnexpectedSuccess are subclassed by name for the 'xfail_sub' / 'ux_sub' kinds: "
+    "renaming them is a harness error (exit 2), not a violation",
 ]
 
 PROG = P.programs(nonexc=True, multi=True, expect=True, force=True, decor=True, cleanup_depth=2, p_raise=4, extras=True,
                   nonexc_more=True, texts=True, rets=True, upcall=True)
-CASE = st.fixed_dictionaries({"prog": PROG, "flavour": st.sampled_from(R.FLAVOURS)})
+# Variations laid over a drawn program (they leave its structure alone, so the older dimensions are not diluted):
+# how the case object came to be, what kind of object an "error" / a custom BaseException is, whether the raised
+# objects have been through another test's run before, whether the result object is falsy.
+MODS = st.fixed_dictionaries({
+    "clone": st.sampled_from([False, False, False, False, True]),
+    "shape": st.sampled_from([None, None, None, None, None, None, "error_dc", "error_dc", "error_eq", "group"]),
+    "basegroup": st.sampled_from([False, False, False, True]),
+    "reuse": st.sampled_from([False, False, False, False, False, True]),
+    "falsy": st.sampled_from([False, False, False, False, False, True]),
+    "xf_multi": st.sampled_from([False, False, True]),
+})
+
+
+def _walk_raises(acts, fn):
+    for a in acts:
+        if a.get("a") == "raise" or "kind" in a and "a" not in a:
+            fn(a)
+            _walk_raises(a.get("sub") or [], fn)
+        elif a.get("a") == "cleanup":
+            _walk_raises(a["body"], fn)
+
+
+STAGES = ("setUp_pre", "setUp_post", "body", "tearDown_pre", "tearDown_post")
+
+
+def _max_id(x):
+    if isinstance(x, dict):
+        return max([x["i"] if isinstance(x.get("i"), int) else 0] + [_max_id(v) for v in x.values()])
+    if isinstance(x, list):
+        return max([0] + [_max_id(v) for v in x])
+    return 0
+
+
+def apply_mods(prog, mods):
+    """-> a new program spec: ``prog`` with the variations of ``mods`` written into it."""
+    prog = copy.deepcopy(prog)
+
+    def reshape(a):
+        if a["kind"] == "error" and mods.get("shape"):
+            a["kind"] = mods["shape"]
+        elif a["kind"] == "base" and mods.get("basegroup"):
+            a["kind"] = "basegroup"
+    for stage in STAGES:
+        _walk_raises(prog[stage], reshape)
+    if prog["decor"] == "expectedFailure":
+        # (a clone of an @expectedFailure test runs its body on the instance it was copied from - C02 / C05 matter,
+        # third audit B3 - so the two are not combined)
+        last = prog["body"][-1] if prog["body"] else None
+        if mods.get("xf_multi") and last and last["a"] == "raise" and P.klass(last["kind"]) in ("failure", "error", "skip"):
+            # the decorated method raises MultipleExceptions; its constituents are Exceptions only: an interrupt
+            # inside the container is swallowed by the decorator's wrapper on the current tree (third audit B2)
+            n = _max_id(prog)
+            prog["body"][-1] = {"a": "raise", "i": last["i"], "kind": "multi",
+                                "sub": [{"kind": last["kind"], "i": n + 1}, {"kind": "error", "i": n + 2}]}
+    elif mods.get("clone"):
+        prog["clone"] = True
+    if mods.get("reuse"):
+        prog["reuse_exc"] = True
+    return prog
+
+
+def make_spec(prog, flavour, mods):
+    spec = {"prog": apply_mods(prog, mods), "flavour": flavour}
+    if mods.get("falsy"):
+        spec["falsy"] = True
+    return spec
+
+
+CASE = st.builds(make_spec, PROG, st.sampled_from(R.FLAVOURS), MODS)
+SKIP_STANDIN = -1       # id of the raise that stands for the wrapper of a skip decorator in the alternative model
+
+
+def skip_alternative(prog):
+    """The other admissible reading of a skip decorator: setUp, tearDown and the cleanups run and the test
+    method raises the skip (what testtools did before it honoured __unittest_skip__)."""
+    alt = dict(prog, decor="none", body=[{"a": "raise", "i": SKIP_STANDIN, "kind": "skip"}])
+    m = P.Model(alt).run()
+    m.log = [e for e in m.log if e != ("A", SKIP_STANDIN)]
+    return m
+
+
+def _bag(log):
+    return sorted(repr(e) for e in log)
 
 
 def check(spec, clauses=("bracket", "nonexc")):
     prog, flavour = spec["prog"], spec["flavour"]
     vs = []
     model = P.Model(prog).run()
-    admissible, propagates = model.admissible()
-    obs = R.run_program(prog, flavour)
+    obs = R.run_program(prog, flavour, falsy=bool(spec.get("falsy")))
     ev = obs["events"]
     names = [e[0] for e in ev]
     tag = flavour
@@ -49,7 +149,10 @@ def check(spec, clauses=("bracket", "nonexc")):
     else:
         core = [n for n in names if n not in ("startTestRun", "stopTestRun", "tags", "time", "stop")]
         if flavour == "none":
-            if names[:1] != ["startTestRun"] or names[-1:] != ["stopTestRun"]:
+            # the statement does not ask for a run bracket around the default result: none at all is admitted, an
+            # unbalanced or misplaced one is not
+            run_evs = [n for n in names if n in ("startTestRun", "stopTestRun")]
+            if run_evs and (run_evs != ["startTestRun", "stopTestRun"] or names[0] != "startTestRun" or names[-1] != "stopTestRun"):
                 vs.append(V("bracket", "default-result-run-bracket", "result=None: events %r not bracketed by startTestRun/stopTestRun" % (names,)))
         ok = len(core) == 3 and core[0] == "startTest" and core[1] in OUTCOMES and core[2] == "stopTest"
         if not ok:
@@ -60,28 +163,36 @@ def check(spec, clauses=("bracket", "nonexc")):
             tests = [e[1] for e in ev if e[0] in ("startTest", "stopTest") or e[0] in OUTCOMES]
             if any(t is not obs["case"] for t in tests):
                 vs.append(V("bracket", "other-test", "events are about a different test object"))
-            # the bracket encloses the test: no user code before startTest or after the outcome was reported
+            # the bracket encloses the test: no user code before startTest or after stopTest (the statement orders
+            # the events only; user code between the outcome and stopTest is inside the bracket)
             lo, hi = obs["live"].exec_span
             if hi >= 0 and flavour != "none":
                 i_start = names.index("startTest")
-                i_out = next(i for i, n in enumerate(names) if n in OUTCOMES)
-                if lo <= i_start or hi > i_out:
-                    vs.append(V("bracket", "user-code-outside-the-bracket", "user code ran while the result had seen %d..%d events; startTest is event %d, the outcome event %d (%r)" % (
-                        lo, hi, i_start, i_out, names)))
+                i_stop = names.index("stopTest")
+                if lo <= i_start or hi > i_stop:
+                    vs.append(V("bracket", "user-code-outside-the-bracket", "user code ran while the result had seen %d..%d events; startTest is event %d, stopTest event %d (%r)" % (
+                        lo, hi, i_start, i_stop, names)))
     outs = [n for n in names if n in OUTCOMES]
     # ---- decorated skips run nothing
     if model.skipped_by_decorator:
-        if obs["live"].log:
-            vs.append(V("decorator-skip", "ran-code", "a skip-decorated test executed %r" % (obs["live"].log[:5],)))
-        if outs and outs[0] != R.degrade("addSkip", flavour):
-            vs.append(V("decorator-skip", "outcome", "skip-decorated test reported %s" % outs[0]))
+        alt = skip_alternative(prog) if obs["live"].log else None
+        if alt is not None and _bag(alt.log) == _bag(obs["live"].log):
+            # setUp / tearDown / the cleanups ran around the skipping method: the statement does not say they must
+            # not; the outcome is then whatever those stages made of it and the clauses below apply to this reading
+            model = alt
+        else:
+            if obs["live"].log:
+                vs.append(V("decorator-skip", "ran-code", "a skip-decorated test executed %r" % (obs["live"].log[:5],)))
+            if outs and outs[0] != R.degrade("addSkip", flavour):
+                vs.append(V("decorator-skip", "outcome", "skip-decorated test reported %s" % outs[0]))
     # ---- non-Exception errors
     nonexc = [r for r in model.raised if P.klass(r["kind"]) == "nonexc"]
     if nonexc:
         if outs and outs[0] != R.degrade("addError", flavour):
             vs.append(V("nonexc", "not-error", "%s raised, reported as %s (raised kinds %r)" % (
                 nonexc[0]["kind"], outs[0], [r["kind"] for r in model.raised])))
-        if obs["live"].log != model.log:
+        if _bag(obs["live"].log) != _bag(model.log):
+            # which stages ran, and how often - not in which order (the order of cleanups is C02's subject)
             vs.append(V("nonexc", "stages-skipped", "after %s the execution log is %r, reference interpreter says %r" % (
                 nonexc[0]["kind"], obs["live"].log, model.log)))
         exc = obs["raised"]
@@ -104,7 +215,9 @@ def run_case(spec):
     vs, nt, model, obs, outs = check(spec)
     return Case(vs, nt, ["flavour=" + spec["flavour"], "raises=%d" % min(len(model.raised), 4),
                          "nonexc" if any(P.klass(r["kind"]) == "nonexc" for r in model.raised) else "",
-                         "decor=" + spec["prog"]["decor"]] + sorted({"kind=" + r["kind"] for r in model.raised}),
+                         "decor=" + spec["prog"]["decor"], "clone" if spec["prog"].get("clone") else "",
+                         "reused-exception" if spec["prog"].get("reuse_exc") else "", "falsy-result" if spec.get("falsy") else ""]
+                + sorted({"kind=" + r["kind"] for r in model.raised}),
                 {"events": [e[0] for e in obs["events"]], "raised": repr(obs["raised"])})
 
 
@@ -172,6 +285,47 @@ def _enum_skip_reasons():
                     yield {"prog": prog, "flavour": fl}
 
 
+def _enum_variants():
+    """Small exhaustive grids behind the variations of MODS (each is rare in the random programs): a cloned case,
+    unusual exception objects, exception objects that have been through another run, a falsy result object, a
+    decorated expected failure raising MultipleExceptions - one faulty stage (two for equal-but-distinct errors),
+    every flavour."""
+    def at(stage, kind):
+        combo = [None] * 5
+        combo[stage] = kind
+        return grid_program(combo)
+    for fl in R.FLAVOURS:
+        for stage in (0, 1, 3):
+            for kind in (None, "fail", "error", "skip", "xfail", "uxsuccess", "kbi", "multi"):
+                yield {"prog": dict(at(stage, kind), clone=True), "flavour": fl}
+            for kind in ("fail", "error", "skip", "kbi", "sysexit", "error_dc", "multi"):
+                yield {"prog": dict(at(stage, kind), reuse_exc=True), "flavour": fl}
+        for kind in P.ERROR_SHAPES + P.NONEXC_SHAPES:
+            for stage in range(5):
+                yield {"prog": at(stage, kind), "flavour": fl}
+            # the same shape raised by two stages (equal but distinct objects), and next to an interrupt
+            yield {"prog": grid_program((None, kind, kind, None, kind)), "flavour": fl}
+            yield {"prog": grid_program((None, "kbi", None, kind, None)), "flavour": fl}
+        for kind in (None, "fail", "skip", "kbi"):
+            yield {"prog": at(1, kind), "flavour": fl, "falsy": True}
+        # one cleanup raises, another one registers a further (quiet) cleanup while the cleanups are running,
+        # everything else is quiet: a cleanup loop that works in batches must carry the failure over
+        for kind in ("fail", "error", "skip", "kbi"):
+            for order in (0, 1):
+                failing = {"a": "cleanup", "i": 90, "args": False, "body": [{"a": "log", "i": 91}, {"a": "raise", "i": 92, "kind": kind}]}
+                registering = {"a": "cleanup", "i": 93, "args": False, "body": [
+                    {"a": "log", "i": 94}, {"a": "cleanup", "i": 95, "args": False, "body": [{"a": "log", "i": 96}]}]}
+                prog = at(1, None)
+                prog["body"] = prog["body"][:1] + ([failing, registering] if order else [registering, failing]) + prog["body"][1:]
+                yield {"prog": prog, "flavour": fl}
+        for subs in (["fail", "error"], ["skip"], ["error", "skip", "fail"]):
+            prog = at(1, None)
+            prog["decor"] = "expectedFailure"
+            prog["body"] = [{"a": "log", "i": 90}, {"a": "raise", "i": 91, "kind": "multi",
+                                                    "sub": [{"kind": k, "i": 92 + n} for n, k in enumerate(subs)]}]
+            yield {"prog": prog, "flavour": fl}
+
+
 def subchecks(tier):
     q = tier == "quick"
     return [
@@ -179,6 +333,10 @@ def subchecks(tier):
         Sub("skip_reason_grid", run_case, enum=_enum_skip_reasons, enum_complete=True,
             note="5 skip shapes (text, empty, no argument, non-text, raised inside expectFailure) x 5 stages x "
                  "{nothing, failed expectThat, expectThat with details, expected failure} recorded before x 9 flavours"),
+        Sub("variant_grid", run_case, enum=_enum_variants, enum_complete=True,
+            note="clone x 8 behaviours x 3 stages; reused exception object x 7 behaviours x 3 stages; dataclass / "
+                 "equal-to-all / ExceptionGroup / BaseExceptionGroup x 5 stages (+ twice in one run, + next to an "
+                 "interrupt); falsy result x 4 behaviours; a failing cleanup next to a cleanup that registers another x 4 behaviours x 2 orders; @expectedFailure body raising MultipleExceptions x 3; x 9 flavours"),
         Sub("fault_grid", run_case, enum=_enum(not q), enum_complete=True,
             note=("10 behaviours ^ 5 stages x 9 flavours (+ expectThat variant)" if not q else "5 behaviours ^ 5 stages x 3 flavours")),
     ]
